@@ -38,7 +38,14 @@ var harnessDirs = map[string]string{
 	"server":  "server",
 }
 
-func loadProgram(repo, harnessRoot string) (*Program, error) {
+// loadProgram loads /repo with the harness files of the given harness
+// directories only (nil = all), so that a harness that no longer compiles
+// against a changed tree only affects the checks that use it.
+func loadProgram(repo, harnessRoot string, only ...string) (*Program, error) {
+	want := map[string]bool{}
+	for _, d := range only {
+		want[d] = true
+	}
 	overlay := map[string][]byte{}
 	ovPaths := map[string]string{}
 	prims, err := os.ReadFile(filepath.Join(harnessRoot, "prims.go.txt"))
@@ -51,6 +58,9 @@ func loadProgram(repo, harnessRoot string) (*Program, error) {
 	}
 	sort.Strings(dirs)
 	for _, d := range dirs {
+		if len(want) > 0 && !want[d] {
+			continue
+		}
 		rel := harnessDirs[d]
 		files, _ := filepath.Glob(filepath.Join(harnessRoot, d, "*.go"))
 		if len(files) == 0 {
